@@ -22,6 +22,9 @@ import (
 type fakeCAS struct {
 	mu      sync.Mutex
 	actions map[string]*remoteexecution.Action
+	// beforeGet, when set, runs once at the start of the next Get: what
+	// happens while the scheduler fetches the action from storage.
+	beforeGet func()
 }
 
 func (c *fakeCAS) GetCapabilities(ctx context.Context, instanceName digest.InstanceName) (*remoteexecution.ServerCapabilities, error) {
@@ -29,6 +32,13 @@ func (c *fakeCAS) GetCapabilities(ctx context.Context, instanceName digest.Insta
 }
 
 func (c *fakeCAS) Get(ctx context.Context, d digest.Digest) buffer.Buffer {
+	c.mu.Lock()
+	f := c.beforeGet
+	c.beforeGet = nil
+	c.mu.Unlock()
+	if f != nil {
+		f()
+	}
 	c.mu.Lock()
 	defer c.mu.Unlock()
 	a, ok := c.actions[d.GetHashString()]
